@@ -540,6 +540,11 @@ func (sf *file) GetPassthroughFd(mergeBufferSize int64, mergeWorkerCount int) (u
 		if !ok {
 			break
 		}
+		// The chunks must tile the file; otherwise this loop doesn't end (empty or negative-sized chunks) and the
+		// buffer positions calculated from the chunks get out of range.
+		if chunkOffset != offset || chunkSize <= 0 || chunkOffset+chunkSize < chunkOffset {
+			return 0, nil, fmt.Errorf("invalid chunk (offset:%d,size:%d) at offset %d", chunkOffset, chunkSize, offset)
+		}
 		// Check if any chunk size exceeds merge buffer size to avoid bounds out of range
 		if chunkSize > mergeBufferSize {
 			hasLargeChunk = true
